@@ -242,6 +242,11 @@ def handle (op : String) (req : Json) : R Json := do
                   ("cols.data.Counter", jImg (readCols x comma "Counter" t)), ("cols.data.Analog", jImg (readCols x comma "Analog" t)),
                   ("rows.params", jParams (readParams x true comma t)), ("cols.params", jParams (readParams x false comma t)),
                   ("format", sn), ("load.Counter", ld false), ("load.Analog", ld true)])
+  | "c03.decode" =>
+    -- the characters of a file (its bytes decoded as plain UTF-8, byte order mark and carriage returns still there)
+    -- -> the lines the text layer hands out (`open(path, "r", encoding="utf-8-sig")`)
+    let chars ← getStr req "chars"
+    pure (jObj [("lines", jList jStr (decodeLines chars.toList))])
   | "c03.history" =>
     -- a history of exports written to a few paths and of calls on them: the model reads the text the path holds at
     -- the time of the call, the specification judges the call by what was last exported to the path
